@@ -138,6 +138,9 @@ class Module:
             self.tree = ast.parse(source)
         except SyntaxError as e:
             raise AnalysisError(f"module {name} does not parse: {e}")
+        from .canon import normalise
+
+        self.tree = normalise(self.tree)  # equivalent spellings reduced to one canonical form (sa/canon.py)
         self.funcs = {}
         self.classes = {}
         self.aliases = {}  # local name -> dotted
